@@ -22,6 +22,7 @@ type Obligation struct {
 }
 
 type NondetVar struct {
+	G    *Term // path guard under which the value was drawn
 	Tag  string
 	Name string
 	Kind string // bool | bv | bytes
@@ -58,6 +59,7 @@ type Engine struct {
 	lastNowSec, lastNowNs *Term
 	folded map[string]int // vAssert labels decided by the term simplifier alone
 	syncMaps map[string]*MapData
+	curG        *Term // guard of the call being executed (for nondet bookkeeping)
 	globalSubst map[int]*Term // x == const facts established by unconditional vAssume
 	globalLits map[int]bool // literals established by unconditional vAssume
 	globalLitV int
@@ -83,6 +85,7 @@ type HarnessSpec struct {
 	NoLightPass  bool // skip the first attempt without facts
 	NoTactic     bool // z3: plain (check-sat) instead of (check-sat-using qfaufbv)
 	GroupAsserts bool // decide all asserts with one query (cheap harnesses)
+	TimeUnit string // "" = seconds+nanoseconds pair; "ns" / "ms" = single value in that unit
 	ClockMin, ClockMax int64 // range of time.Now in Unix seconds (default 2020..2100)
 	NonMonotonicClock bool // time.Now may go backwards between calls
 	BMI2        string   // "", "generic": cpu.X86.HasBMI2=false; "asm": true; "either": symbolic
